@@ -14,7 +14,7 @@ const trustDeps = "dependencies (spec, analysis, swag, strfmt, errors, loads, re
 
 func init() {
 	Properties["C04"] = PropSpec{
-		Rules:          []Rule{PoolCtor, PoolAPI, ResLinear, Slots},
+		Rules:          []Rule{PoolCtor, PoolAPI, ResLinear, RedeemGuard, Slots},
 		DebugConfigToo: true,
 		Explanation:    "Decides the complete structural argument the code relies on for recycling safety, on every path and call order: POOL-CTOR/POOL-CLEARED (a borrowed validator has every field assigned before it is returned and no field is read before assignment, directly or via methods of the half-built object; a recycled Result is reset leaf field by leaf field; scratch schemas are overwritten as a whole before any use); POOL-API (sync.Pool only inside Borrow*/Redeem*, Redeem<T> only from (*T).redeem, redeem() only from the deferred closure of the type's own Validate or on a child held in a slot, resetPools only at init, emptyResult refused by RedeemResult); EMPTY-IMMUTABLE (no mutating use of a value that may be the shared empty result); RES-LINEAR (forward may-dataflow per function with derived consuming positions: no use, return or second release of a pooled result after the call that released it, deferred releases take effect at RunDefers); SLOT-PRECLEAR/POSTCLEAR/INIT/SELFREDEEM/ONESHOT (typestate of child validators in slots: emptied under the recycle option before the child runs, emptied after a release, filled only in the parent's constructor from distinct constructor calls, self-release deferred once under the guard, fresh validators run once); DEFER-INIT.",
 		NotDecided:     "That outcomes equal those of a fresh process (behavioural); aliasing carried through dependencies; leaks (not violations).",
